@@ -1,5 +1,5 @@
 (* C05, dbesm part.  Statements only; proofs in Proofs/SmcDbesmProofs.v. *)
-From DS Require Import Base.Prelude Model.SmcBase Model.SmcDbesm Proofs.SmcDbesmProofs.
+From DS Require Import Base.Prelude Model.SmcBase Model.SmcDbesm Proofs.SmcDbesmProofs Proofs.SmcDbesmMore.
 
 (* single-register writes SETATT SETAMP SETEQ SETBPF SETSTATUS MODE STOREALLMODE DELETEFILE (and
    unknown commands): any answer other than 'ACK\r\n' - NAK, any ERR, an exception - leaves the whole
@@ -32,5 +32,41 @@ Theorem C05_dbesm_amp_encoding_refuted :
     = OReply ($"ACK 1_DBBC2 BOARD 1 AMP 3 VALUE 1.0" ++ crlf).
 Proof. exact db_amp_encoding_refuted. Qed.
 Print Assumptions C05_dbesm_amp_encoding_refuted.
-(* PARTIAL: "until the next acknowledged write" (frame lemmas over arbitrary interleavings) is not
-   proved for dbesm; the correspondence and the oracle exercise interleavings. *)
+(* frame lemma: a command that is not a write of register family r (r = ATT, AMP, EQ, BPF; the
+   writes are SETr and SETDBEr) leaves every register of that family on every board unchanged,
+   whatever its outcome *)
+Theorem C05_dbesm_frame : forall fx e d r c,
+  writes_reg r c = false -> view r (fst (exec fx e d c)) = view r d.
+Proof. exact db_frame. Qed.
+Print Assumptions C05_dbesm_frame.
+
+Theorem C05_dbesm_view_stable : forall fx e r cs d,
+  Forall (fun c => writes_reg r c = false) cs -> view r (exec_all fx e d cs) = view r d.
+Proof. exact db_view_stable. Qed.
+Print Assumptions C05_dbesm_view_stable.
+
+(* SETATT acknowledged, then ANY commands that are not attenuator writes: the cell still holds the
+   written value; and GETDBEATT / GETSTATUS render exactly that cell *)
+Theorem C05_dbesm_setatt_until : forall fx e d ctok btok vtok cs,
+  Inv d ->
+  acked (snd (exec fx e d (KSetReg RAtt [ctok; $"BOARD"; btok; $"VALUE"; vtok]))) = true ->
+  Forall (fun c => writes_reg RAtt c = false) cs ->
+  exists n c h, py_int e btok = CvOk n /\ py_int e ctok = CvOk c /\ py_float e vtok = CvOk (FHalf h) /\
+    cell RAtt (Z.to_nat (n - 1)) (Z.to_nat c)
+         (exec_all fx e (fst (exec fx e d (KSetReg RAtt [ctok; $"BOARD"; btok; $"VALUE"; vtok]))) cs) = Some (CFlt h).
+Proof. exact db_setatt_until. Qed.
+Print Assumptions C05_dbesm_setatt_until.
+
+Theorem C05_dbesm_getdbe_prints_cell : forall r name d i a,
+  get_dbe_line r name d (i, a) =
+  match nth_opt i (boards d) with
+  | None => None
+  | Some b => if b_status b =? 1 then Some (dbe_err name i $"unreachable")
+              else match cell r i (Z.to_nat a) d with
+                   | None => None
+                   | Some v => Some ($"ACK " ++ name ++ $" BOARD " ++ bnum i ++ [SP] ++ reg_name r ++ [SP] ++ zstr a
+                                     ++ $" VALUE " ++ cstr v ++ [LF])
+                   end
+  end.
+Proof. exact get_dbe_line_cell. Qed.
+Print Assumptions C05_dbesm_getdbe_prints_cell.
